@@ -462,12 +462,12 @@ const c16WKRule = "the reply has status 200 (so size, m.server and the cache hea
 // cache-control shapes: judged-valid (max-age must win), judged-absent (no usable max-age: Expires
 // or nothing decides), and shapes HTTP allows or forbids only in its small print (not judged).
 var c16CCValid = map[string]string{
-	"plain":  "max-age=%d",
-	"first":  "max-age=%d, must-revalidate",
-	"last":   "public, max-age=%d",
-	"middle": "public,max-age=%d,immutable",
-	"upper":  "Max-Age=%d",
-	"spaces": "public ,  max-age=%d , s-maxage=7",
+	"plain":          "max-age=%d",
+	"first":          "max-age=%d, must-revalidate",
+	"last":           "public, max-age=%d",
+	"middle":         "public,max-age=%d,immutable",
+	"upper":          "Max-Age=%d",
+	"spaces":         "public ,  max-age=%d , s-maxage=7",
 	"after-s-maxage": "s-maxage=7, max-age=%d",
 }
 var c16CCAbsent = map[string]string{
